@@ -72,14 +72,16 @@ func (p *TMultiUDPTransport) IsOpen() bool {
 	return true
 }
 
-// Close closes the connections of the underlying transports
+// Close closes the connections of all underlying transports, also when closing
+// one of them fails, and returns the first error encountered.
 func (p *TMultiUDPTransport) Close() error {
+	var firstErr error
 	for _, trans := range p.transports {
-		if err := trans.Close(); err != nil {
-			return err
+		if err := trans.Close(); err != nil && firstErr == nil {
+			firstErr = err
 		}
 	}
-	return nil
+	return firstErr
 }
 
 // Read is not supported for multiple underlying transports
